@@ -39,6 +39,7 @@ type Stats struct {
 	Classes     map[string]int64
 	PerDepth    []int64
 	Samples     [][]string
+	Replayed    int
 }
 
 type Reporter interface {
@@ -145,6 +146,18 @@ func BFS(r Reporter, sc Scenario) *Stats {
 				sc.OnResult(results[i].hist, o)
 			}
 			prune := o.Prune
+			if len(o.Viols) > 0 && st.Replayed < 40 {
+				// determinism guard: a violating history is replayed twice from scratch before it is believed
+				st.Replayed++
+				for k := 0; k < 2; k++ {
+					o2 := sc.Run(results[i].hist)
+					if sigsOf(o2.Viols) != sigsOf(o.Viols) || o2.Key != o.Key {
+						r.Report("NONDETERMINISM|"+sc.Name, fmt.Sprintf("history %v gave %q on one execution and %q on a replay: a source of nondeterminism is not owned by the harness", names(results[i].hist), sigsOf(o.Viols), sigsOf(o2.Viols)), HistCase{sc.Name, names(results[i].hist), results[i].hist})
+						o.Viols = nil
+						break
+					}
+				}
+			}
 			for _, v := range o.Viols {
 				r.Report(v.Sig, v.Msg, HistCase{sc.Name, names(results[i].hist), results[i].hist})
 				prune = true
@@ -176,4 +189,12 @@ func BFS(r Reporter, sc Scenario) *Stats {
 
 func (s *Stats) String() string {
 	return fmt.Sprintf("states=%d transitions=%d depth=%d fixpoint=%v capped=%v", s.States, s.Transitions, s.MaxDepth, s.Fixpoint, s.Capped)
+}
+
+func sigsOf(vs []Viol) string {
+	var out []string
+	for _, v := range vs {
+		out = append(out, v.Sig)
+	}
+	return fmt.Sprint(out)
 }
